@@ -157,6 +157,8 @@ package interp
 //@   opt safety = off
 //@   opt loops = havoc
 //@   opt fn-values = pure
+//@   -- the receiver was bound when the method value was created: a call of the wrapper evaluates no operand
+//@   opt apply-guard = false
 //@   opt opaque-calls = *
 //@   opt opaque-havoc = none
 //@   requires [assume] f != nil && n != nil && def != nil && def.typ != nil
@@ -178,8 +180,9 @@ package interp
 //@   opt opaque-calls = *
 //@   opt opaque-havoc = none
 //@   requires [assume] f != nil && n != nil
+//@   -- the go statement: argument i is a COPY of operand i, made when the statement executes
 //@   loop 1
-//@   step argument-i-is-operand-i: in[i] == getBinValue(getMapType, v, f) && forall(k, 0, len(in), k != i ==> in[k] == old(in[k]))
+//@   step argument-i-is-a-copy-of-operand-i: fresh(in[i]) && rvIface(in[i]) == rvIface(getBinValue(getMapType, v, f)) && rvInt(in[i]) == rvInt(getBinValue(getMapType, v, f)) && rvString(in[i]) == rvString(getBinValue(getMapType, v, f)) && forall(k, 0, len(in), k != i ==> in[k] == old(in[k]))
 //@ lit callBin exec#3 (f) (ret)
 //@   props C07
 //@   opt safety = off
@@ -242,3 +245,16 @@ package interp
 //@   loop 1 index i
 //@   invariant no-earlier-interface-is-implemented: forall(k, 0, i, !implementsRT(typ, lr[k]))
 //@   canary r == nil
+
+// A method value (w.run passed to the host, started by `go`, deferred, stored in a variable) binds its
+// receiver when it is evaluated: a value receiver is copied at that moment, a pointer receiver keeps
+// designating the variable (Go spec, Method values).
+//@ lit genFunctionWrapper calls:MakeFunc (f) (r)
+//@   props C07 C08
+//@   opt safety = off
+//@   opt fn-values = pure
+//@   opt opaque-calls = *
+//@   opt opaque-havoc = none
+//@   requires [assume] f != nil && def != nil && 0 <= numRet && numRet < len(def.types)
+//@   ensures [local:recv] value-receiver-is-copied-when-the-method-value-is-made: rcvr != nil && def.types[numRet].Kind() != reflect.Ptr ==> fresh(recv) && rvIface(recv) == rvIface(rcvr(f)) && rvInt(recv) == rvInt(rcvr(f))
+//@   ensures [local:recv] pointer-receiver-designates-the-variable: rcvr != nil && def.types[numRet].Kind() == reflect.Ptr ==> recv == rcvr(f)
